@@ -637,6 +637,34 @@ def _r10_10(prog, res, ap: Func, call: ast.Call) -> None:
     r = prog.resolve_call(call.func, ap.mod, ap)
     one = r[1]
     passed = {k.arg: k.value for k in call.keywords}
+    # "nothing but whitespace changed": a rewrite may be dropped as a no-op only when the two texts agree up to TRAILING blanks and
+    # blank lines - indentation is syntax, a rewrite that only re-indents (a statement moved out of an if) is a real change
+    from ..defuse import bindings as _bindings
+    text_p = one.posparams[0] if one.posparams else "source"
+    for t in walk_own(one.node):
+        if not (isinstance(t, ast.If) and t.body and isinstance(t.body[-1], ast.Return) and isinstance(t.body[-1].value, ast.Name) and t.body[-1].value.id == text_p
+                and isinstance(t.test, ast.Compare) and len(t.test.ops) == 1 and isinstance(t.test.ops[0], ast.Eq)):
+            continue
+        def shown(v: ast.AST) -> str:
+            # what is done to the lines that are KEPT: the element expression and the iterables, not the filters (`if line.strip()`
+            # only drops blank lines)
+            if isinstance(v, (ast.ListComp, ast.GeneratorExp, ast.SetComp)):
+                return norm(v.elt) + " " + " ".join(norm(g.iter) for g in v.generators)
+            return norm(v)
+        sides = []
+        for e in (t.test.left, t.test.comparators[0]):
+            txt = shown(e)
+            if isinstance(e, ast.Name):
+                txt += " " + " ".join(shown(v) for _s, v in _bindings(one).get(e.id, []) if v is not None)
+            sides.append(txt)
+        if not any(("splitlines" in x or "strip" in x) for x in sides):
+            continue
+        blob = " ".join(sides)
+        strips_left = ".strip()" in blob or ".lstrip()" in blob or "str.strip" in blob or "str.lstrip" in blob
+        res.decide(not strips_left, "R10.10", one.loc(t), one.fq, f"{short(t.test, 60)} # a rewrite dropped as whitespace-only",
+                   "compared with trailing blanks and blank lines set aside only" if not strips_left else
+                   "the comparison strips LEADING blanks too: a rewrite that only changes indentation (a statement moved out of a block) counts as `nothing changed` and is "
+                   "dropped on its own, while the other rewrites of its transaction are applied")
     tests = [c for c in prog.calls_in(one) if (prog.dotted(c.func) or "").split(".")[-1] == "has_ignore_comment"]
     if not tests:
         res.ok("R10.10", one.loc(), one.fq, f"{one.node.name}() # applies one scheduled rewrite", "no ignore test of its own: the scheduler decides for the whole transaction")
